@@ -295,6 +295,12 @@ class Repo:
 
     def resolve_method(self, cname, name, ayns=False, after=None):
         """MRO lookup. `after`: class name; start searching after it (super())."""
+        if cname not in self.classes:
+            if not ayns and name in _BUILTIN_METHODS.get(cname, ()):
+                return ('builtin', cname, name)
+            if cname == 'pset' and name in ('add',):
+                return ('builtin', 'pset', name)
+            return None
         c = self.classes[cname]
         started = after is None
         for k in c.mro:
